@@ -528,7 +528,10 @@ def generate(seed, tier='quick', index=0):
     base = gen_settings.gen_settings_spec(rng, degenerate=rng.random() < 0.15)
     settings = [base]
     if rng.random() < 0.6:
-        settings.append(gen_settings.variant(rng, base))
+        v = gen_settings.variant(rng, base)
+        if base.get('patterns') and len(base['patterns']) >= 2 and rng.random() < 0.5:
+            v = dict(base, patterns=list(reversed(base['patterns'])))  # same patterns, other order
+        settings.append(v)
     if rng.random() < 0.3:
         settings.append(gen_settings.gen_settings_spec(rng))
     orng = s('ops')
